@@ -222,7 +222,7 @@ fn half_word_lattice(tier: &str, emit: Emit) {
         if tier == "thorough" { v.extend([m >> 1, m ^ (m >> 1), 5, 0x5555_5555_5555_5555_5555_5555_5555_5555u128 & m, 0xAAAA_AAAA_AAAA_AAAA_AAAA_AAAA_AAAA_AAAAu128 & m]); }
         v
     };
-    for (tag, w) in [("F128x2", 128usize), ("F64x3", 64), ("F32x3", 32), ("F16x2", 16), ("F8x3", 8)] {
+    for (tag, w) in [("F128x2", 128usize), ("F64x5", 64), ("F32x3", 32), ("F16x2", 16), ("F8x3", 8)] {
         let ty = ty_of(tag);
         let h = w / 2;
         let vals = hv(h);
@@ -267,7 +267,7 @@ fn gen_c01(rng: &mut Rng, tier: &str, emit: Emit) {
 fn div_word_lattice(rng: &mut Rng, tier: &str, emit: Emit) {
     let ws: [u64; 10] = [0, 1, 2, 3, 1 << 63, (1 << 63) - 1, u64::MAX, u64::MAX - 1, 1 << 61, 0x8000_0000_0000_0001];
     let reps = if tier == "quick" { 1500 } else { 40000 };
-    let tys = [ty_of("D"), ty_of("A"), ty_of("F64x3"), ty_of("F128x2"), ty_of("F32x3")];
+    let tys = [ty_of("D"), ty_of("A"), ty_of("F64x5"), ty_of("F128x2"), ty_of("F32x3")];
     for _ in 0..reps {
         let lt = *rng.pick(&tys);
         let rt = *rng.pick(&tys);
@@ -335,7 +335,7 @@ fn gen_c04(rng: &mut Rng, tier: &str, emit: Emit) {
         for rt in TYPES {
             for _ in 0..scale(tier, 6) {
                 let ll = gen_len(rng, lt, 200).min(rt.cap().unwrap_or(200));
-                let extra = rng.below(rt.cap().unwrap_or(300).min(300) - ll + 1);
+                let extra = rng.below((rt.cap().unwrap_or(330).min(330)).saturating_sub(ll) + 1);
                 let l = gen_vec_len(rng, lt, ll);
                 let r = vec_token(rt, &vec![true; ll + extra], rng.below(2), rng.chance(1, 3));
                 for op in ["and", "or", "xor"] {
